@@ -261,6 +261,7 @@ class AbsRng(VAbs):
     def __init__(self, key):
         self.key = key
         self.draws = 0
+        self.noted = False
 
     def keyterm(self):
         return self.key
@@ -275,6 +276,7 @@ class AbsRng(VAbs):
         return self.draws
 
     def getattr(self, name, st, eng):
+        eng.used_trusted.add("model:numpy Generator - every draw is an uninterpreted function of (generator key, draw number[, position]) within the documented range")
         if name in ("random", "uniform", "normal", "beta"):
             def f(args, kwargs, s, e, name=name):
                 self.draws += 1
